@@ -15,6 +15,7 @@ import json
 import warnings
 
 from harness import gen_expr as G
+from harness import impl as I
 from harness.common import CORPUS, ImplWorker, Model, Report, rng_for, sx_str, unbin, depth
 
 warnings.simplefilter("ignore")
@@ -45,7 +46,7 @@ def impl_parse(s: str) -> dict:
         return {"v": "SyntaxError"}
     except BaseException as e:  # noqa: BLE001
         return {"v": "exn", "exn": type(e).__name__}
-    out = {"v": "ok", "repr": repr(t), "mi": t.multiaxis_index, "mn": t.multiaxis_name, "an": bool(t.anonymous_multiaxis),
+    out = {"v": "ok", "repr": I.ann_text(t), "mi": t.multiaxis_index, "mn": t.multiaxis_name, "an": bool(t.anonymous_multiaxis),
            "n": len(t.expected_shape)}
     # later use: a call with a tensor of a fitting rank, all names bound by a provider
     if "^" in s:
